@@ -23,12 +23,14 @@ import (
 )
 
 type memConn struct {
-	kind int // 0 = Modbus TCP framing, otherwise RTU framing
+	kind    int           // 0 = Modbus TCP framing, otherwise RTU framing
+	latency time.Duration // a reply can be read this long after its request was written (slow device)
 
-	mu      sync.Mutex // protects the recorder itself, not the client under test
-	log     []byte     // every byte written, in arrival order
-	pending []byte     // bytes not yet split into a request
-	replies [][]byte   // answers not yet read
+	mu      sync.Mutex  // protects the recorder itself, not the client under test
+	log     []byte      // every byte written, in arrival order
+	pending []byte      // bytes not yet split into a request
+	replies [][]byte    // answers not yet read
+	readyAt []time.Time // when each of them becomes readable
 	closed  bool
 
 	// calls made by the LIBRARY on this transport object (Read, Write, Close, Flush, Set*Deadline)
@@ -157,6 +159,7 @@ func (c *memConn) Write(p []byte) (int, error) {
 				break
 			}
 			c.replies = append(c.replies, concReply(c.kind, c.pending[:n]))
+			c.readyAt = append(c.readyAt, time.Now().Add(c.latency))
 			c.pending = append([]byte{}, c.pending[n:]...)
 		}
 		c.mu.Unlock()
@@ -173,11 +176,16 @@ func (c *memConn) Read(p []byte) (int, error) {
 	if c.closed {
 		return 0, net.ErrClosed
 	}
-	if len(c.replies) == 0 {
+	if len(c.replies) == 0 || time.Now().Before(c.readyAt[0]) {
+		// nothing to read yet: block as long as the client's per-read deadline (0.5 ms) would
+		c.mu.Unlock()
+		time.Sleep(500 * time.Microsecond)
+		c.mu.Lock()
 		return 0, os.ErrDeadlineExceeded
 	}
 	r := c.replies[0]
 	c.replies = c.replies[1:]
+	c.readyAt = c.readyAt[1:]
 	return copy(p, r), nil
 }
 
@@ -189,6 +197,7 @@ func (c *memConn) Close() error {
 	defer c.mu.Unlock()
 	c.closed = true
 	c.replies = nil
+	c.readyAt = nil
 	c.pending = nil
 	return nil
 }
